@@ -32,6 +32,8 @@ func runC10(c *Ctx) {
 	c05Layering(c, "C10.6")
 	c06JoinMapping(c, "C10.7")
 	c05KeywordLookup(c, "C10.8")
+	c08Literals(c, "C10.9")
+	ruleStripQuotes(c, "C10.10")
 }
 
 // ---- C10.1 --------------------------------------------------------------------
